@@ -84,7 +84,7 @@ def _build(case, depth):
     ta = systems.time_axis(int(case["nt"]), float(case["dt"]))
     baths = _bath_list(case["bath"], n)
     if case["via"] == "agg":
-        agg = systems.aggregate(en, J=J, bath=baths, ta=ta)
+        agg = systems.aggregate(en, J=J, bath=baths, ta=ta, e0=float(case.get("e0", 0.0)))
         isolation.reset_units()
         if case.get("sec") == "index":
             hy = agg.get_KTHierarchy(depth)
@@ -93,7 +93,7 @@ def _build(case, depth):
             pr = agg.get_KTHierarchyPropagator(depth)
             hy = pr.hy
     else:
-        ham, sbi = systems.ham_sbi(en, J, baths, ta)
+        ham, sbi = systems.ham_sbi(en, J, baths, ta, e0=float(case.get("e0", 0.0)))
         isolation.reset_units()
         if case.get("rwa", "blocks") == "per-site":
             ham.set_rwa(list(range(n + 1)))
@@ -384,18 +384,25 @@ def index_cases(tier):
     pts = product({"ftype": ftypes, "via": ["direct", "agg"], "K": Ks, "depth": Ds},
                   # K=5 only up to depth 6 (cost of the library's O(hsize^2) neighbour search)
                   lambda c: not (c["K"] == 5 and c["depth"] > 6))
-    return [_index_case(p["K"], p["depth"], p["via"], p["ftype"]) for p in pts]
+    out = [_index_case(p["K"], p["depth"], p["via"], p["ftype"]) for p in pts]
+    # deep hierarchies with few baths (multi-indices with components >= 10)
+    deep = {1: [11, 13], 2: [10, 11, 12], 3: [10, 11]} if tier == "quick" else \
+        {1: [9, 11, 13, 21], 2: [9, 10, 11, 12, 14], 3: [9, 10, 11, 12]}
+    for K, ds in deep.items():
+        for dpt in ds:
+            out.append(_index_case(K, dpt, "direct", HT))
+    return out
 
 
 def dyn_cases(tier):
     out = []
 
-    def add(energies, J, bath, via, rwa, nt, dt, depths):
+    def add(energies, J, bath, via, rwa, nt, dt, depths, e0=0.0):
         N = len(energies) + 1
         for s in range(N * N):
             out.append({"sec": "dyn", "energies": energies, "J": J, "bath": bath,
                         "via": via, "rwa": rwa, "nt": nt, "dt": dt, "state": s,
-                        "depths": depths})
+                        "depths": depths, "e0": e0})
 
     mixed2 = [_bath(30, 50), _bath(20, 40)]
     if tier == "quick":
@@ -411,6 +418,12 @@ def dyn_cases(tier):
         # direct construction, different bath per site
         for J in (0.0, 100.0):
             add([E0, E0 + 200.0], _J(2, J), mixed2, "direct", "blocks", nt, dt, D)
+        # a ground state that does not sit at zero energy (the lowest rotating-wave block has
+        # its own reference frequency)
+        add([E0 + 300.0], None, _bath(0.0), "direct", "blocks", nt, dt, [0, 2], e0=300.0)
+        add([E0 + 300.0], None, _bath(30.0), "direct", "blocks", nt, dt, D, e0=300.0)
+        add([E0 + 300.0, E0 + 500.0], _J(2, 0.0), _bath(30.0), "agg", "blocks", nt, dt, [0, 2, 4],
+            e0=300.0)
         return out
     # ------------------------------ thorough ------------------------------------
     D = list(range(0, 7))
@@ -434,6 +447,11 @@ def dyn_cases(tier):
                 # every state its own rotating-wave reference (commutes with H only for J=0)
                 for b in (_bath(0), _bath(30), mixed2):
                     add(en, _J(2, J), b, "direct", "per-site", 200, 1.0, D)
+    for via in ("agg", "direct"):
+        for b in (_bath(0), _bath(30)):
+            add([E0 + 300.0], None, b, via, "blocks", 200, 1.0, D, e0=300.0)
+            add([E0 - 150.0, E0 + 50.0], _J(2, 0.0), b, via, "blocks", 200, 1.0, D, e0=-150.0)
+            add([E0 + 300.0, E0 + 500.0], _J(2, 100.0), b, via, "blocks", 200, 1.0, D, e0=300.0)
     # trimers
     mixed3 = [_bath(30, 50), _bath(20, 40), _bath(40, 60)]
     for J in (0.0, 100.0):
